@@ -73,7 +73,8 @@ def check(pid, tier):
     # call against the least fixpoint over all ports
     cases2 = []
     for f, cap in (("lanes", 2500 if tier == "quick" else None), ("cross", None), ("halfstuck", 1200 if tier == "quick" else None),
-                   ("staticlane", 1200 if tier == "quick" else None), ("feedback", 1500 if tier == "quick" else None)):
+                   ("staticlane", 1200 if tier == "quick" else None), ("feedback", 1500 if tier == "quick" else None),
+                   ("twist", 800 if tier == "quick" else None)):
         got = tlc.emit("Connect2Emit", {"FAMILY": f})
         ev.cov["runs"].append({"kind": "tlc-case-emission+theorems", "module": "Connect2Emit", "family": f, "cases": len(got)})
         if cap and len(got) > cap:
@@ -86,7 +87,7 @@ def check(pid, tier):
         machinery.append(f"{len(herr)} harness errors (multi-port), first: {herr[0]['harness_error']}")
         tr2 = [t for t in tr2 if "harness_error" not in t]
     acc, tot, bad, gen, _ = tlc.validate("Connect2_Trace", tr2)
-    ev.add_traces("Connect2_Trace/lanes+cross+halfstuck+staticlane+feedback", acc, tot, gen)
+    ev.add_traces("Connect2_Trace/lanes+cross+halfstuck+staticlane+feedback+twist", acc, tot, gen)
     outs = {k: sum(1 for t in tr2 if t["end"]["out"] == k) for k in ("ok", "stall")}
     ev.cov["outcomes_multiport"] = outs
     if not outs["ok"] or not outs["stall"]:
@@ -105,7 +106,13 @@ def check(pid, tier):
     ev.add_traces("Sched_Trace/connect-phase", acc, tot, gen)
     for k, verdict in sorted(bad.items()):
         t = st[k]
-        if sched_property(verdict, t["cfg"]) != pid:
+        owned = sched_property(verdict, t["cfg"]) == pid
+        # "if the initial data and metadata dependencies are acyclic it ends with every component connected":
+        # a circular-coupling report out of connect() for an acyclic composition is C06's as well
+        if (verdict.split("@")[0] in ("false-cycle", "false-cycle-zone") and t["end"].get("stage") == "connect"
+                and t["cfg"].get("zone", "dag") in ("dag", "resolved")):
+            owned = True
+        if not owned:
             continue
         kf = match_known(pid, verdict, features(t["cfg"]))
         if kf:
